@@ -1,3 +1,8 @@
+/-
+Arithmetic of `LossLessSwap` (the exact-integer algorithm of /repo be84bab) for C10: the
+characterisation of the model function on naturals, the floor/ceiling facts behind the value
+statement, and exactness at ratio 1.
+-/
 import Irismod.Proofs.Token
 import Mathlib.Tactic.Ring
 import Mathlib.Tactic.Linarith
@@ -12,370 +17,139 @@ abbrev P : Nat := 1000000000000000000
 
 theorem precision_eq : precision = (P : Int) := rfl
 
-theorem chopRoundNat_bounds (k : Nat) :
-    2 * chopRoundNat k * P ≤ 2 * k + P ∧ 2 * k ≤ 2 * chopRoundNat k * P + P := by
-  unfold chopRoundNat P
-  simp only
-  split
-  · omega
-  · split
-    · omega
-    · split
-      · omega
-      · split <;> omega
+theorem P_pos : 0 < P := by decide
 
-theorem chopRoundNat_exact (a : Nat) : chopRoundNat (a * P) = a := by
-  unfold chopRoundNat P
-  simp only
-  have h1 : a * 1000000000000000000 % 1000000000000000000 = 0 := by omega
-  have h2 : a * 1000000000000000000 / 1000000000000000000 = a := by omega
-  simp [h1, h2]
+theorem pow_pos10 (n : Nat) : 0 < 10 ^ n := by positivity
 
-theorem chopRound_ofNat (k : Nat) : chopRound (k : Int) = (chopRoundNat k : Int) := by
-  unfold chopRound
-  have : ¬ ((k : Int) < 0) := by omega
-  simp [this]
-
-theorem chkDec_some {v : Int} {d : Dec} (h : (chkDec v).map Dec.mk = some d) : d = ⟨v⟩ := by
-  unfold chkDec at h
-  split at h
-  · simp at h; exact h.symm
-  · simp at h
-
-theorem mul_raw {a b d : Dec} (h : a.mul b = some d) : d.raw = chopRound (a.raw * b.raw) := by
-  unfold Dec.mul at h
-  rw [chkDec_some h]
-
-theorem sub_raw {a b d : Dec} (h : a.sub b = some d) : d.raw = a.raw - b.raw := by
-  unfold Dec.sub at h
-  rw [chkDec_some h]
-
-theorem truncateInt_val {a : Dec} {v : Int} (h : a.truncateInt = some v) : v = a.raw.tdiv precision := by
-  unfold Dec.truncateInt chkInt chopTrunc at h
+theorem chkInt_some {v w : Int} (h : chkInt v = some w) : w = v := by
+  unfold chkInt at h
   split at h
   · cases h; rfl
   · cases h
 
-/-- the product of two non-negative decimals, on naturals -/
-theorem mul_nat {a b d : Dec} {x y : Nat} (ha : a.raw = x) (hb : b.raw = y) (h : a.mul b = some d) :
-    d.raw = (chopRoundNat (x * y) : Int) := by
-  rw [mul_raw h, ha, hb, ← Int.natCast_mul, chopRound_ofNat]
+/-- the output of a swap on naturals: `⌊X · n / d⌋` -/
+def outN (X n d : Nat) : Nat := X * n / d
 
-/-! ### the pieces of `LossLessSwap` on naturals -/
+/-- the input taken on naturals: `⌈m · d / n⌉` computed as `(m·d + (n-1)) / n` -/
+def takenN (m n d : Nat) : Nat := (m * d + (n - 1)) / n
 
-/-- the minted amount: `⌊out⌋` -/
-theorem minted_nat {out : Dec} {o : Nat} {m : Int} (ho : out.raw = o)
-    (h : out.truncateDec.truncateInt = some m) : m = ((o / P : Nat) : Int) := by
-  have := truncateInt_val h
-  rw [this]
-  simp only [Dec.truncateDec, chopTrunc, ho, precision_eq]
-  rw [Int.mul_tdiv_cancel _ (by decide)]
-  rw [Int.tdiv_eq_ediv_of_nonneg (by omega)]
-  norm_cast
-
-/-- the burned amount given the (non-negative) output and reverse multiplier -/
-def burnOf (x o revN : Nat) : Int :=
-  if o % P = 0 then (x : Int) else ((x : Int) * P - (chopRoundNat (o % P * revN) : Int)).tdiv P
-
-theorem burned_nat {out rev : Dec} {x o revN : Nat} {b : Int} (ho : out.raw = o) (hr : rev.raw = revN)
-    (h : llBurn (x : Int) out rev = some b) : b = burnOf x o revN := by
-  unfold llBurn at h
-  unfold burnOf
-  have htr : out.truncateDec.raw = ((o / P * P : Nat) : Int) := by
-    simp only [Dec.truncateDec, chopTrunc, ho, precision_eq]
-    rw [Int.tdiv_eq_ediv_of_nonneg (by omega)]
-    norm_cast
-  split at h
-  · rename_i heq
-    cases h
-    have : out.raw = out.truncateDec.raw := by rw [← heq]
-    rw [ho, htr] at this
-    have h0 : o % P = 0 := by
-      have : o = o / P * P := by exact_mod_cast this
-      have := Nat.div_add_mod o P
-      have h3 : P * (o / P) = o / P * P := Nat.mul_comm _ _
-      omega
-    simp [h0]
-  · rename_i hne
-    have h0 : o % P ≠ 0 := by
-      intro h0
-      apply hne
-      have : out.raw = out.truncateDec.raw := by
-        rw [ho, htr]
-        have := Nat.div_add_mod o P
-        have h3 : P * (o / P) = o / P * P := Nat.mul_comm _ _
-        have : o = o / P * P := by omega
-        exact_mod_cast this
-      cases out
-      simp only [Dec.truncateDec] at this ⊢
-      simp only [Dec.mk.injEq]
-      exact this
-    simp only [h0, if_false]
-    cases hf : out.sub out.truncateDec with
-    | none => simp [hf] at h
-    | some f =>
-      simp only [hf, Option.bind] at h
-      cases hg : f.mul rev with
-      | none => simp [hg] at h
-      | some g =>
-        simp only [hg] at h
-        cases hd : (Dec.ofInt (x : Int)).sub g with
-        | none => simp [hd] at h
-        | some d =>
-          simp only [hd] at h
-          have hfr : f.raw = ((o % P : Nat) : Int) := by
-            rw [sub_raw hf, ho, htr]
-            have := Nat.div_add_mod o P
-            have h3 : P * (o / P) = o / P * P := Nat.mul_comm _ _
-            have : o = o / P * P + o % P := by omega
-            omega
-          have hgr := mul_nat hfr hr hg
-          have hdr := sub_raw hd
-          rw [truncateInt_val h, hdr, hgr]
-          simp [Dec.ofInt, precision_eq]
-
-/-- the output when the input scale is at least the output scale (`k = si - so`) -/
-theorem output_down {x q si so : Nat} {out : Dec} (hle : so ≤ si)
-    (h : llOutput (x : Int) ⟨(q : Int)⟩ si so = some out) :
-    out.raw = (chopRoundNat (x * 10 ^ (18 - (si - so)) * q) : Int) := by
-  unfold llOutput at h
-  cases h1 : (Dec.ofInt (x : Int)).mul (scaleMul si so) with
-  | none => simp [h1] at h
-  | some d1 =>
-    simp only [h1, Option.bind] at h
-    have e1 : (Dec.ofInt (x : Int)).raw = ((x * P : Nat) : Int) := by simp [Dec.ofInt, precision_eq]
-    have e2 : (scaleMul si so).raw = ((10 ^ (18 - (si - so)) : Nat) : Int) := by
-      simp [scaleMul, hle, Dec.withPrec]
-    have r1 := mul_nat e1 e2 h1
-    have : x * P * 10 ^ (18 - (si - so)) = x * 10 ^ (18 - (si - so)) * P := by ring
-    rw [this, chopRoundNat_exact] at r1
-    exact mul_nat r1 rfl h
-
-/-- the output when the output scale is larger (`j = so - si`): no rounding occurs -/
-theorem output_up {x q si so : Nat} {out : Dec} (hlt : si < so)
-    (h : llOutput (x : Int) ⟨(q : Int)⟩ si so = some out) :
-    out.raw = ((x * 10 ^ (so - si) * q : Nat) : Int) := by
-  unfold llOutput at h
-  cases h1 : (Dec.ofInt (x : Int)).mul (scaleMul si so) with
-  | none => simp [h1] at h
-  | some d1 =>
-    simp only [h1, Option.bind] at h
-    have e1 : (Dec.ofInt (x : Int)).raw = ((x * P : Nat) : Int) := by simp [Dec.ofInt, precision_eq]
-    have hn : ¬ so ≤ si := by omega
-    have e2 : (scaleMul si so).raw = ((10 ^ (so - si) * P : Nat) : Int) := by
-      simp [scaleMul, hn, Dec.ofInt, pow10, precision_eq]
-    have r1 := mul_nat e1 e2 h1
-    have : x * P * (10 ^ (so - si) * P) = x * P * 10 ^ (so - si) * P := by ring
-    rw [this, chopRoundNat_exact] at r1
-    have r2 := mul_nat r1 (rfl : (Dec.mk (q : Int)).raw = (q : Int)) h
-    have : x * P * 10 ^ (so - si) * q = x * 10 ^ (so - si) * q * P := by ring
-    rw [this, chopRoundNat_exact] at r2
-    exact r2
-
-theorem scaleRev_down {si so : Nat} (hle : so ≤ si) : (scaleRev si so).raw = ((10 ^ (si - so) * P : Nat) : Int) := by
-  simp [scaleRev, hle, Dec.ofInt, pow10, precision_eq]
-
-theorem scaleRev_up {si so : Nat} (hlt : si < so) : (scaleRev si so).raw = ((10 ^ (18 - (so - si)) : Nat) : Int) := by
-  have hn : ¬ so ≤ si := by omega
-  simp [scaleRev, hn, Dec.withPrec]
-
-/-- **characterisation of `LossLessSwap`** on non-negative inputs: the output decimal `o/10^18`,
-the minted amount `⌊o/10^18⌋` and the burned amount, in the two scale regimes -/
-theorem lossLess_char {x q si so : Nat} {b m : Int} (h : lossLess (x : Int) ⟨(q : Int)⟩ si so = some (b, m)) :
-    ∃ o revN : Nat, m = ((o / P : Nat) : Int) ∧ b = burnOf x o revN ∧
-      ((so ≤ si ∧ si - so ≤ 18 ∧ o = chopRoundNat (x * 10 ^ (18 - (si - so)) * q) ∧ revN = 10 ^ (si - so) * P) ∨
-       (si < so ∧ so - si ≤ 18 ∧ o = x * 10 ^ (so - si) * q ∧ revN = 10 ^ (18 - (so - si)))) := by
+/-- **characterisation of `LossLessSwap`**: `(0, 0)` for a non-positive input or ratio, otherwise
+floor / ceiling over `num = Q·10^so`, `den = 10^18·10^si` -/
+theorem lossLess_char {x : Int} {ratio : Dec} {si so : Nat} {b m : Int}
+    (h : lossLess x ratio si so = some (b, m)) :
+    (b = 0 ∧ m = 0 ∧ (x ≤ 0 ∨ ratio.raw ≤ 0)) ∨
+    ∃ X Q : Nat, 0 < X ∧ 0 < Q ∧ x = (X : Int) ∧ ratio.raw = (Q : Int) ∧
+      m = (outN X (Q * 10 ^ so) (P * 10 ^ si) : Int) ∧
+      b = (takenN (outN X (Q * 10 ^ so) (P * 10 ^ si)) (Q * 10 ^ so) (P * 10 ^ si) : Int) := by
   unfold lossLess at h
-  split at h; · cases h
-  rename_i hg
-  split at h; · cases h
-  rename_i out hout
-  split at h; · cases h
-  rename_i b' hb
-  split at h; · cases h
-  rename_i m' hm
-  cases h
-  by_cases hle : so ≤ si
-  · have ho := output_down hle hout
-    refine ⟨_, _, minted_nat ho hm, burned_nat ho (scaleRev_down hle) hb, Or.inl ⟨hle, by omega, rfl, rfl⟩⟩
-  · have hlt : si < so := by omega
-    have ho := output_up hlt hout
-    refine ⟨_, _, minted_nat ho hm, burned_nat ho (scaleRev_up hlt) hb, Or.inr ⟨hlt, by omega, rfl, rfl⟩⟩
+  split at h
+  · rename_i hg
+    cases h
+    exact Or.inl ⟨rfl, rfl, hg⟩
+  · rename_i hg
+    split at h; · cases h
+    rename_i b' hb
+    split at h; · cases h
+    rename_i m' hm
+    cases h
+    right
+    have hx : 0 < x := by omega
+    have hq : 0 < ratio.raw := by omega
+    obtain ⟨X, rfl⟩ := Int.eq_ofNat_of_zero_le (Int.le_of_lt hx)
+    obtain ⟨Q, hQ⟩ := Int.eq_ofNat_of_zero_le (Int.le_of_lt hq)
+    have hnum : swapNum ratio so = ((Q * 10 ^ so : Nat) : Int) := by
+      simp [swapNum, hQ, pow10]
+    have hden : swapDen si = ((P * 10 ^ si : Nat) : Int) := by
+      simp [swapDen, precision_eq, pow10]
+    have hout : swapOutput (X : Int) (swapNum ratio so) (swapDen si) = (outN X (Q * 10 ^ so) (P * 10 ^ si) : Int) := by
+      rw [hnum, hden]
+      unfold swapOutput outN
+      rw [Int.tdiv_eq_ediv_of_nonneg (by positivity)]
+      norm_cast
+    refine ⟨X, Q, by exact_mod_cast hx, by rw [hQ] at hq; exact_mod_cast hq, rfl, hQ, ?_, ?_⟩
+    · rw [chkInt_some hm, hout]
+    · rw [chkInt_some hb, hout, hnum, hden]
+      unfold swapTaken takenN
+      have hn1 : 1 ≤ Q * 10 ^ so := by
+        have : 0 < Q := by rw [hQ] at hq; exact_mod_cast hq
+        have := pow_pos10 so
+        exact Nat.mul_pos ‹0 < Q› this
+      rw [Int.tdiv_eq_ediv_of_nonneg (by
+        have : (0 : Int) ≤ ((Q * 10 ^ so : Nat) : Int) - 1 := by
+          have : (1 : Int) ≤ ((Q * 10 ^ so : Nat) : Int) := by exact_mod_cast hn1
+          omega
+        positivity)]
+      have : (((Q * 10 ^ so : Nat) : Int) - 1) = ((Q * 10 ^ so - 1 : Nat) : Int) := by
+        rw [Nat.cast_sub hn1]; rfl
+      rw [this]
+      norm_cast
 
-/-! ### arithmetic -/
+/-! ### floor and ceiling facts -/
 
-theorem P_pos : 0 < P := by decide
+/-- the output is worth at most the input: `⌊X·n/d⌋ · d ≤ X · n` -/
+theorem outN_mul_le (X n d : Nat) : outN X n d * d ≤ X * n := Nat.div_mul_le_self _ _
 
-theorem pow_split {k : Nat} (hk : k ≤ 18) : 10 ^ k * 10 ^ (18 - k) = P := by
-  rw [← Nat.pow_add]
-  have : k + (18 - k) = 18 := by omega
-  rw [this]
+/-- the taken input covers the output: `m · d ≤ ⌈m·d/n⌉ · n` -/
+theorem le_takenN_mul (m n d : Nat) (hn : 0 < n) : m * d ≤ takenN m n d * n := by
+  unfold takenN
+  have h1 := Nat.div_add_mod (m * d + (n - 1)) n
+  have h2 := Nat.mod_lt (m * d + (n - 1)) hn
+  have h3 : n * ((m * d + (n - 1)) / n) = (m * d + (n - 1)) / n * n := Nat.mul_comm _ _
+  generalize (m * d + (n - 1)) / n * n = t at *
+  generalize (m * d + (n - 1)) % n = r at *
+  generalize m * d = a at *
+  omega
 
-theorem pow_pos10 (n : Nat) : 0 < 10 ^ n := by positivity
+/-- … and is the least such amount, so never more than what was offered -/
+theorem takenN_le (X m n d : Nat) (hn : 0 < n) (h : m * d ≤ X * n) : takenN m n d ≤ X := by
+  unfold takenN
+  have : (m * d + (n - 1)) / n < X + 1 := by
+    rw [Nat.div_lt_iff_lt_mul hn]
+    have : (X + 1) * n = X * n + n := by ring
+    omega
+  omega
 
-/-- **burned ≤ offered**, whatever the ratio -/
-theorem burnOf_le (x o revN : Nat) : burnOf x o revN ≤ (x : Int) := by
-  unfold burnOf
-  split
-  · exact Int.le_refl _
-  · have h1 : ((x : Int) * P - (chopRoundNat (o % P * revN) : Int)) ≤ (x : Int) * P := by omega
-    have h2 := Int.tdiv_le_tdiv (c := (P : Int)) (by decide) h1
-    rw [Int.mul_tdiv_cancel _ (by decide)] at h2
-    exact h2
+/-- `(c · n + (n - 1)) / n = c` -/
+theorem takenN_exact (c n d m : Nat) (hn : 0 < n) (h : m * d = c * n) : takenN m n d = c := by
+  unfold takenN
+  rw [h]
+  have : c * n + (n - 1) = n * c + (n - 1) := by ring
+  rw [this, Nat.mul_add_div hn]
+  have : (n - 1) / n = 0 := Nat.div_eq_of_lt (by omega)
+  omega
 
-/-- the burned amount leaves less than one input min unit of the give-back behind -/
-theorem burnOf_lower (x o revN : Nat) (h : o % P ≠ 0) :
-    (x : Int) * P - (chopRoundNat (o % P * revN) : Int) < (burnOf x o revN + 1) * P := by
-  unfold burnOf
-  simp only [h, if_false]
-  exact Int.lt_tdiv_add_one_mul_self _ (by decide)
+/-! ### ratio 1 -/
 
-/-- at ratio 1 with `k = si - so ≥ 0`: burned = x - x mod 10^k, minted = x / 10^k -/
-theorem one_down (x k : Nat) (hk : k ≤ 18) :
-    let o := chopRoundNat (x * 10 ^ (18 - k) * P)
-    o / P = x / 10 ^ k ∧ burnOf x o (10 ^ k * P) = ((x - x % 10 ^ k : Nat) : Int) := by
-  intro o
-  have ho : o = x * 10 ^ (18 - k) := chopRoundNat_exact _
-  have hP := pow_split hk
-  have he := pow_pos10 (18 - k)
-  have hdiv : x * 10 ^ (18 - k) / P = x / 10 ^ k := by
-    rw [← hP]; exact Nat.mul_div_mul_right _ _ he
-  have hmod : x * 10 ^ (18 - k) % P = x % 10 ^ k * 10 ^ (18 - k) := by
-    rw [← hP]; exact Nat.mul_mod_mul_right _ _ _
-  refine ⟨by rw [ho, hdiv], ?_⟩
-  unfold burnOf
-  rw [ho, hmod]
-  by_cases hz : x % 10 ^ k = 0
-  · simp [hz]
-  · have hne : x % 10 ^ k * 10 ^ (18 - k) ≠ 0 := Nat.mul_ne_zero hz (by omega)
-    simp only [hne, if_false]
-    have : x % 10 ^ k * 10 ^ (18 - k) * (10 ^ k * P) = x % 10 ^ k * P * P := by
-      calc x % 10 ^ k * 10 ^ (18 - k) * (10 ^ k * P) = x % 10 ^ k * (10 ^ k * 10 ^ (18 - k)) * P := by ring
-        _ = x % 10 ^ k * P * P := by rw [hP]
-    rw [this, chopRoundNat_exact]
-    have hle : x % 10 ^ k ≤ x := Nat.mod_le _ _
-    have : (x : Int) * P - ((x % 10 ^ k * P : Nat) : Int) = ((x - x % 10 ^ k : Nat) : Int) * P := by
-      push_cast [hle]; ring
-    rw [this, Int.mul_tdiv_cancel _ (by decide)]
+theorem pow_add_split {a b : Nat} (h : b ≤ a) : 10 ^ a = 10 ^ (a - b) * 10 ^ b := by
+  rw [← Nat.pow_add]; congr 1; omega
 
-/-- at ratio 1 with `j = so - si > 0`: nothing is given back -/
-theorem one_up (x j : Nat) : burnOf x (x * 10 ^ j * P) (10 ^ (18 - j)) = (x : Int) ∧ x * 10 ^ j * P / P = x * 10 ^ j := by
-  constructor
-  · unfold burnOf
-    simp
-  · exact Nat.mul_div_cancel _ P_pos
+/-- ratio 1, `so ≥ si`: everything offered is taken and `X · 10^(so-si)` is minted -/
+theorem one_up (X si so : Nat) (h : si ≤ so) :
+    outN X (P * 10 ^ so) (P * 10 ^ si) = X * 10 ^ (so - si) ∧
+    takenN (outN X (P * 10 ^ so) (P * 10 ^ si)) (P * 10 ^ so) (P * 10 ^ si) = X := by
+  have hd : 0 < P * 10 ^ si := Nat.mul_pos P_pos (pow_pos10 _)
+  have hn : 0 < P * 10 ^ so := Nat.mul_pos P_pos (pow_pos10 _)
+  have e : X * (P * 10 ^ so) = X * 10 ^ (so - si) * (P * 10 ^ si) := by
+    rw [pow_add_split h]; ring
+  have ho : outN X (P * 10 ^ so) (P * 10 ^ si) = X * 10 ^ (so - si) := by
+    unfold outN; rw [e]; exact Nat.mul_div_cancel _ hd
+  refine ⟨ho, ?_⟩
+  rw [ho]
+  exact takenN_exact X _ _ _ hn e.symm
 
-/-! #### value bounds: the abstract inequalities -/
-
-theorem core_down (mm F x e q p R : Int) (hR : p * e = R) (hRpos : 0 < R) (hp : 0 ≤ p)
-    (h1 : 2 * (mm * R + F) * R ≤ 2 * (x * e * q) + R) : 2 * (mm * R + F) * p ≤ 2 * x * q + p := by
-  have a := mul_le_mul_of_nonneg_right h1 hp
-  have b : (2 * (mm * R + F) * p) * R ≤ (2 * x * q + p) * R := by
-    subst hR; linarith
-  exact le_of_mul_le_mul_right b hRpos
-
-theorem core_down_near (mm F x e q p R B : Int) (hR : p * e = R) (hRpos : 0 < R) (hF : 0 ≤ F) (hp : 0 ≤ p)
-    (hq0 : 0 ≤ q) (hq : q ≤ R) (h1 : 2 * (mm * R + F) * R ≤ 2 * (x * e * q) + R)
-    (h2 : x * R ≤ B * R + F * p) : 2 * mm * R * p ≤ 2 * B * q + p := by
-  have a' := core_down mm F x e q p R hR hRpos hp h1
-  have b1 := mul_le_mul_of_nonneg_right h2 hq0
-  have b2 : F * p * q ≤ F * p * R := mul_le_mul_of_nonneg_left hq (mul_nonneg hF hp)
-  have b3 : (x * q) * R ≤ (B * q + F * p) * R := by linarith
-  have b := le_of_mul_le_mul_right b3 hRpos
-  linarith
-
-theorem core_up_near (mm F x q t e' g R B : Int) (hR : t * e' = R) (hRpos : 0 < R) (ht : 0 ≤ t) (hg0 : 0 ≤ g)
-    (hq0 : 0 ≤ q) (hq : q ≤ R) (h0 : mm * R + F = x * t * q) (hg : 2 * g * R ≤ 2 * (F * e') + R)
-    (h2 : x * R ≤ B * R + g) : 2 * mm * R ≤ 2 * B * q * t + t := by
-  have c1 := mul_le_mul_of_nonneg_right h2 (mul_nonneg hq0 ht)
-  have c2 : g * t * q ≤ g * t * R := mul_le_mul_of_nonneg_left hq (mul_nonneg hg0 ht)
-  have c3 : (x * q * t) * R ≤ (B * q * t + g * t) * R := by linarith
-  have c := le_of_mul_le_mul_right c3 hRpos
-  have d1 := mul_le_mul_of_nonneg_right hg ht
-  have d2 : (2 * g * t) * R ≤ (2 * F + t) * R := by subst hR; linarith
-  have d := le_of_mul_le_mul_right d2 hRpos
-  linarith
-
-/-! #### value bounds for the two regimes -/
-
-theorem div_mod_int (o : Nat) : ((o / P : Nat) : Int) * (P : Int) + ((o % P : Nat) : Int) = (o : Int) := by
-  have := Nat.div_add_mod o P
-  have h3 : P * (o / P) = o / P * P := Nat.mul_comm _ _
-  have : o / P * P + o % P = o := by omega
-  exact_mod_cast this
-
-/-- `k = si - so ≥ 0`: minted is worth at most the offered amount, up to half an ulp -/
-theorem offered_down (x q k : Nat) (hk : k ≤ 18) :
-    2 * ((chopRoundNat (x * 10 ^ (18 - k) * q) / P : Nat) : Int) * P * (10 ^ k : Nat)
-      ≤ 2 * (x : Int) * q + (10 ^ k : Nat) := by
-  set o := chopRoundNat (x * 10 ^ (18 - k) * q) with ho
-  have hA := (chopRoundNat_bounds (x * 10 ^ (18 - k) * q)).1
-  rw [← ho] at hA
-  have hA' : 2 * (((o / P : Nat) : Int) * P + ((o % P : Nat) : Int)) * P
-      ≤ 2 * ((x : Int) * ((10 ^ (18 - k) : Nat) : Int) * q) + P := by
-    rw [div_mod_int]; exact_mod_cast hA
-  have hR : ((10 ^ k : Nat) : Int) * ((10 ^ (18 - k) : Nat) : Int) = (P : Int) := by exact_mod_cast pow_split hk
-  have := core_down _ _ _ _ _ _ _ hR (by decide) (by positivity) hA'
-  have hF : (0 : Int) ≤ ((o % P : Nat) : Int) * ((10 ^ k : Nat) : Int) := by positivity
-  linarith
-
-/-- `k = si - so ≥ 0`, ratio ≤ 1: minted is worth at most (burned + 1), up to half an ulp -/
-theorem near_down (x q k : Nat) (hk : k ≤ 18) (hq : q ≤ P) :
-    2 * ((chopRoundNat (x * 10 ^ (18 - k) * q) / P : Nat) : Int) * P * (10 ^ k : Nat)
-      ≤ 2 * (burnOf x (chopRoundNat (x * 10 ^ (18 - k) * q)) (10 ^ k * P) + 1) * q + (10 ^ k : Nat) := by
-  set o := chopRoundNat (x * 10 ^ (18 - k) * q) with ho
-  by_cases hz : o % P = 0
-  · have hb : burnOf x o (10 ^ k * P) = (x : Int) := by unfold burnOf; simp [hz]
-    rw [hb]
-    have := offered_down x q k hk
-    rw [← ho] at this
-    have hq0 : (0 : Int) ≤ q := by positivity
-    linarith
-  · have hA := (chopRoundNat_bounds (x * 10 ^ (18 - k) * q)).1
-    rw [← ho] at hA
-    have hA' : 2 * (((o / P : Nat) : Int) * P + ((o % P : Nat) : Int)) * P
-        ≤ 2 * ((x : Int) * ((10 ^ (18 - k) : Nat) : Int) * q) + P := by
-      rw [div_mod_int]; exact_mod_cast hA
-    have hR : ((10 ^ k : Nat) : Int) * ((10 ^ (18 - k) : Nat) : Int) = (P : Int) := by exact_mod_cast pow_split hk
-    have hlow := burnOf_lower x o (10 ^ k * P) hz
-    have hg : chopRoundNat (o % P * (10 ^ k * P)) = o % P * 10 ^ k := by
-      have : o % P * (10 ^ k * P) = o % P * 10 ^ k * P := by ring
-      rw [this, chopRoundNat_exact]
-    rw [hg] at hlow
-    have h2 : (x : Int) * P ≤ (burnOf x o (10 ^ k * P) + 1) * P + ((o % P : Nat) : Int) * ((10 ^ k : Nat) : Int) := by
-      push_cast at hlow ⊢; linarith
-    exact core_down_near _ _ _ _ _ _ _ _ hR (by decide) (by positivity) (by positivity) (by positivity)
-      (by exact_mod_cast hq) hA' h2
-
-/-- `j = so - si > 0`: minted is worth at most the offered amount (no rounding at all) -/
-theorem offered_up (x q j : Nat) : ((x * 10 ^ j * q / P : Nat) : Int) * P ≤ (x : Int) * (10 ^ j : Nat) * q := by
-  have := Nat.div_mul_le_self (x * 10 ^ j * q) P
-  exact_mod_cast this
-
-/-- `j = so - si > 0`, ratio ≤ 1: minted is worth at most (burned + 1), up to half an output min unit
-of the 18th decimal -/
-theorem near_up (x q j : Nat) (hj : j ≤ 18) (hq : q ≤ P) :
-    2 * ((x * 10 ^ j * q / P : Nat) : Int) * P
-      ≤ 2 * (burnOf x (x * 10 ^ j * q) (10 ^ (18 - j)) + 1) * q * (10 ^ j : Nat) + (10 ^ j : Nat) := by
-  set o := x * 10 ^ j * q with ho
-  by_cases hz : o % P = 0
-  · have hb : burnOf x o (10 ^ (18 - j)) = (x : Int) := by unfold burnOf; simp [hz]
-    rw [hb]
-    have := offered_up x q j
-    rw [← ho] at this
-    have h1 : (0 : Int) ≤ (q : Int) * ((10 ^ j : Nat) : Int) := by positivity
-    have h2 : (0 : Int) ≤ ((10 ^ j : Nat) : Int) := by positivity
-    nlinarith
-  · have hR : ((10 ^ j : Nat) : Int) * ((10 ^ (18 - j) : Nat) : Int) = (P : Int) := by exact_mod_cast pow_split hj
-    have hlow := burnOf_lower x o (10 ^ (18 - j)) hz
-    have hgb := (chopRoundNat_bounds (o % P * 10 ^ (18 - j))).1
-    set g := chopRoundNat (o % P * 10 ^ (18 - j)) with hgdef
-    have h0 : ((o / P : Nat) : Int) * P + ((o % P : Nat) : Int) = (x : Int) * ((10 ^ j : Nat) : Int) * q := by
-      rw [div_mod_int, ho]; push_cast; ring
-    have hg' : 2 * (g : Int) * P ≤ 2 * (((o % P : Nat) : Int) * ((10 ^ (18 - j) : Nat) : Int)) + P := by
-      exact_mod_cast hgb
-    have h2 : (x : Int) * P ≤ (burnOf x o (10 ^ (18 - j)) + 1) * P + (g : Int) := by linarith
-    exact core_up_near _ _ _ _ _ _ _ _ _ hR (by decide) (by positivity) (by positivity) (by positivity)
-      (by exact_mod_cast hq) h0 hg' h2
+/-- ratio 1, `si > so` (`k = si - so`): `X / 10^k` is minted, `X - X mod 10^k` is taken -/
+theorem one_down (X si so : Nat) (h : so ≤ si) :
+    outN X (P * 10 ^ so) (P * 10 ^ si) = X / 10 ^ (si - so) ∧
+    takenN (outN X (P * 10 ^ so) (P * 10 ^ si)) (P * 10 ^ so) (P * 10 ^ si) = X / 10 ^ (si - so) * 10 ^ (si - so) := by
+  have hn : 0 < P * 10 ^ so := Nat.mul_pos P_pos (pow_pos10 _)
+  have ed : P * 10 ^ si = P * 10 ^ so * 10 ^ (si - so) := by
+    rw [pow_add_split h]; ring
+  have ho : outN X (P * 10 ^ so) (P * 10 ^ si) = X / 10 ^ (si - so) := by
+    unfold outN
+    rw [ed, Nat.mul_comm X, Nat.mul_div_mul_left _ _ hn]
+  refine ⟨ho, ?_⟩
+  rw [ho]
+  apply takenN_exact _ _ _ _ hn
+  rw [ed]; ring
 
 end Irismod.Proofs.TokenSwap
